@@ -158,7 +158,7 @@ fn gen(a: &Args) {
     } else if a.tier == "thorough" {
         6000
     } else {
-        500
+        300
     };
     for _ in 0..n {
         gen_case(&mut r, &mut o);
